@@ -240,6 +240,8 @@ def run(prog, tier, extra=None):
             "an input consumed twice inside one transaction or block pays out more than was consumed")
     include(res, prog, tier, extra, "c13", ["C13.handled", "C13.derive"],
             "every expiring output is either rebroadcast (fee booked) or its own amount is booked to the graveyard: nothing else conserves supply")
+    include(res, prog, tier, extra, "c03", ["C03.tx-apply-total"],
+            "a payout created when a block is wound must be withdrawn when it is unwound (and the inputs it consumed restored): otherwise a reorganisation leaves extra spendable value behind")
     res.explanation = (
         "Decides two necessary clauses of the second sentence of C02: the totals that the inflation test compares cannot wrap around (a wrapped output sum makes "
         "total_out <= total_in true for an inflating transaction), and the test exists and gates every non-privileged accepting path of Transaction::validate. "
